@@ -129,5 +129,5 @@ def run(repo, tier):
     rep.floor('baking evaluation sites', 1)
     rep.floor('early evaluation sites', 7)
     rep.floor('expression-carrying fields', 14)
-    rep.floor('label environments', 5)
+    rep.floor('label environments', 3)
     return rep
